@@ -2,10 +2,12 @@ package rules
 
 import (
 	"go/token"
+	"strings"
 
 	"golang.org/x/tools/go/ssa"
 
 	"lbcheck/eng"
+	"lbcheck/ir"
 )
 
 // Rules that accompany the repairs F84–F88 (second batch of the round-4 defects in the unchanged code).
@@ -386,4 +388,143 @@ func ruleCursorScanCoversAcknowledgedTail(c *eng.Ctx) {
 		return
 	}
 	c.Check(related, "a fetch on a new leader covers the cursors acknowledged above its trailing watermark", c.P.Pos(fn.Pos()), "the watermark the scan stays below is compared with the end the log had when this server became the leader", "getLatestCursorOffset scans committed data below partition.log.HighWatermark() and compares that watermark with constants only")
+}
+
+// ruleEmptyBatchIsANoOp (R01.16, F90): the segment's write assumes at least one entry (it indexes the first and the last); an
+// Append without messages must not reach it — it assigns no offsets and leaves the log alone.
+func ruleEmptyBatchIsANoOp(c *eng.Ctx) {
+	fn := c.Fn(cl + "(*commitLog).Append")
+	if fn == nil {
+		return
+	}
+	some := append(eng.CmpEdges(fn, eng.Len(eng.Param("msgs")), eng.IntConst(0), eng.NE), eng.CmpEdges(fn, eng.Len(eng.Param("msgs")), eng.IntConst(0), eng.GT)...)
+	n := 0
+	for _, w := range eng.CallsIn(fn, cl+"commitLog.append", cl+"segment.WriteMessageSet", cl+"commitLog.checkAndPerformSplit") {
+		n++
+		g, wit := eng.GuardedBy(fn, w.(ssa.Instruction), some)
+		c.Check(g && len(some) > 0, "an append without messages does not reach "+shortRef(eng.CalleeRef(w.Common())), c.Pos(w.(ssa.Instruction)), "if len(msgs) == 0 { return []int64{}, nil } before anything is rolled or written", "Append hands an empty batch on ("+wit.String()+"): segment.write indexes entries[0] and entries[len-1] and the process panics — the property quantifies over all batch sizes")
+	}
+	if n == 0 {
+		c.Unresolved("the roll / write calls of commitLog.Append")
+	}
+}
+
+// ruleKeylessMessagesAreNotTracked (R08.1 extension, F91): messages without a key are always kept, so the key scan has
+// nothing to remember for them — and must not remember them under string(nil) == "", which is the entry of messages whose
+// key is present and empty: their latest offset would be a key-less message's.
+func ruleKeylessMessagesAreNotTracked(c *eng.Ctx) {
+	fn := c.Fn(cl + "(*compactCleaner).scanSegments")
+	if fn == nil {
+		return
+	}
+	keyed := eng.CmpEdges(fn, eng.Call(-1, cl+"SerializedMessage.Key"), eng.NilConst, eng.NE)
+	ls := eng.CallsIn(fn, "sync.Map.LoadOrStore")
+	if len(ls) == 0 {
+		c.Unresolved("keyOffsets.LoadOrStore in scanSegments")
+		return
+	}
+	for _, l := range ls {
+		g, w := eng.GuardedBy(fn, l.(ssa.Instruction), keyed)
+		c.Check(g && len(keyed) > 0, "only messages with a key enter the key table", c.Pos(l.(ssa.Instruction)), "key := ms.Message().Key(); if key == nil { continue }", "scanSegments records messages without a key ("+w.String()+"): string(nil) is the entry of the empty, non-nil key too, so the latest message with an empty key is removed as soon as a later key-less message exists")
+	}
+}
+
+// ruleNothingCommittedMeansWait (R03.14, F92): with a high watermark of -1 nothing is committed, whatever offset is asked
+// for. A committed reader is then built on the waiting path (no segment, resumes when the watermark moves): the positioned
+// path takes its read limit from getHWPos, which it skips for hw == -1, and would read without a limit.
+func ruleNothingCommittedMeansWait(c *eng.Ctx) {
+	p := c.P
+	fn := c.Fn(cl + "(*commitLog).newReaderCommitted")
+	if fn == nil {
+		return
+	}
+	hw := eng.Call(-1, cl+"commitLog.HighWatermark")
+	some := append(eng.CmpEdges(fn, hw, eng.IntConst(-1), eng.NE), eng.CmpEdges(fn, hw, eng.IntConst(-1), eng.GT)...)
+	some = append(some, eng.CmpEdges(fn, hw, eng.IntConst(0), eng.GE)...)
+	// the positioned reader: a committedReader literal whose seg field is stored from a segment lookup
+	segF := p.Field(clPkg, "committedReader", "seg")
+	n := 0
+	for _, st := range eng.FieldStores(fn, func(fa *ssa.FieldAddr) bool { return fieldIs(fa, segF) }) {
+		if eng.NilConst(eng.Strip(st.Val)) {
+			continue
+		}
+		n++
+		g, w := eng.GuardedBy(fn, st, some)
+		c.Check(g && len(some) > 0, "a committed reader is positioned only when something is committed", c.Pos(st), "offset > hw || hw == -1 || OldestOffset() == -1 leads to the waiting reader", "newReaderCommitted positions a reader in a segment although the high watermark is -1 ("+w.String()+"): for a negative start offset on a non-empty log the read limit is never computed and the reader hands out uncommitted messages")
+	}
+	if n == 0 {
+		c.Unresolved("the positioned committedReader built by newReaderCommitted")
+	}
+}
+
+// ruleFailedSetCursorLeavesNoStaleCache (R11.1 extension, F93): the publish hands the message to NATS before it looks at the
+// context; a SetCursor that fails (its deadline fell between publish and ack) may have stored the cursor all the same. The
+// cache entry is dropped on that path, so that every later fetch reads the partition and the answer no longer depends on
+// eviction, purge or restart; and a request that is already dead publishes nothing.
+func ruleFailedSetCursorLeavesNoStaleCache(c *eng.Ctx) {
+	fn := c.Fn("server.(*cursorManager).SetCursor")
+	if fn == nil {
+		return
+	}
+	pubs := eng.CallsIn(fn, "server.apiServer.Publish")
+	if len(pubs) != 1 {
+		c.Unresolved("api.Publish call in SetCursor")
+		return
+	}
+	pc := pubs[0].(*ssa.Call)
+	failed := eng.CmpEdges(fn, func(v ssa.Value) bool { e, ok := v.(*ssa.Extract); return ok && e.Tuple == pc && e.Index == 1 }, eng.NilConst, eng.NE)
+	isRemove := func(in ssa.Instruction) bool {
+		ci, ok := in.(ssa.CallInstruction)
+		return ok && strings.HasSuffix(eng.CalleeRef(ci.Common()), ".Cache.Remove") && strings.HasPrefix(eng.CalleeRef(ci.Common()), lruPkg)
+	}
+	q := &eng.PathQuery{Fn: fn, FromEdges: failed, Target: isReturn, CutInstr: isRemove}
+	w := q.Find()
+	c.Check(w == nil && len(failed) > 0, "a failed SetCursor drops the cached cursor", c.Pos(pc), "on err != nil of api.Publish: c.cache.Remove(key) before the return", "SetCursor returns the publish error with the cache entry untouched ("+w.String()+"): the publish may have stored the cursor (the context is only honoured while waiting for the ack), the cache keeps the old offset, and FetchCursor changes its answer when the entry is evicted, purged or the server restarts")
+	alive := eng.CmpEdges(fn, eng.Call(-1, "context.Context.Err"), eng.NilConst, eng.EQ)
+	g, w2 := eng.GuardedBy(fn, pc, alive)
+	c.Check(g && len(alive) > 0, "a request that is already dead stores nothing", c.Pos(pc), "if err := ctx.Err(); err != nil { return … } before api.Publish", "SetCursor publishes without looking at its context ("+w2.String()+"): publishSync hands the message to NATS first and honours the context only while waiting for the ack, so a call that had already expired stores its cursor and reports failure")
+}
+
+// ruleAppendsWakeParkedCommittedReaders (R03.15, known finding K16): on a replica that is catching up the high watermark is
+// ahead of the log (the follower learns the leader's watermark before it has the data), so an append at or below it makes
+// committed data readable WITHOUT the watermark changing. A committed reader parked at its read limit must therefore wait on
+// something the append path signals. The rule looks for a wake-up source common to both: the watermark waiters
+// (waitForHW / notifyHWChange) or the segment's data waiters (WaitForData / notifyWaiters).
+func ruleAppendsWakeParkedCommittedReaders(c *eng.Ctx) {
+	p := c.P
+	var app, rd []*ssa.Function
+	for _, k := range []string{cl + "(*commitLog).Append", cl + "(*commitLog).AppendMessageSet"} {
+		if f := c.Fn(k); f != nil {
+			app = append(app, f)
+		}
+	}
+	for _, k := range []string{cl + "(*committedReader).Read"} {
+		if f := c.Fn(k); f != nil {
+			rd = append(rd, f)
+		}
+	}
+	if len(app) != 2 || len(rd) != 1 {
+		return
+	}
+	has := func(set map[*ssa.Function]bool, key string) bool {
+		for f := range set {
+			if ir.FuncKey(f) == key {
+				return true
+			}
+		}
+		return false
+	}
+	fromAppend := c.Reachable(app, nil, false)
+	fromReader := c.Reachable(rd, nil, false)
+	type source struct{ name, wait, notify string }
+	common := ""
+	for _, s := range []source{
+		{"the watermark waiters", cl + "(*commitLog).waitForHW", cl + "(*commitLog).notifyHWChange"},
+		{"the segment's data waiters", cl + "(*segment).WaitForData", cl + "(*segment).notifyWaiters"},
+	} {
+		if has(fromReader, s.wait) && has(fromAppend, s.notify) {
+			common = s.name
+		}
+	}
+	c.Check(common != "", "an append at or below the watermark wakes the committed readers parked at the end of the log", p.Pos(rd[0].Pos()), "committedReader.Read waits on a source that Append / AppendMessageSet signal", "committedReader.Read parks on the watermark waiters only, which Append / AppendMessageSet never signal (they signal the segment's data waiters, on which a committed reader does not wait)")
 }
